@@ -184,6 +184,30 @@ func genC05(g *gen) {
 	sig, _ := z.Sign(msg)
 	g.note("honest signature accepted")
 	g.check(g.op("dl.verify %s %s %s", hx(msg), hx(sig[:]), hx(pk[:])) == "ok true", "honest-accepted", "honest signature rejected")
+	// the accepting direction, for Verify and Open alike: Open must return the message (not "nothing") exactly when Verify
+	// accepts — for the empty message, one byte, a message as long as a signature, a long one
+	g.note("accepted triples: Verify and Open agree")
+	for _, m := range [][]byte{{}, nil, {0}, {0xff}, g.bytes(31), make([]byte, 4595), g.bytes(4595), g.bytes(20000)} {
+		sg, err := z.Sign(m)
+		if err != nil {
+			continue
+		}
+		sm := append(append([]byte{}, sg[:]...), m...)
+		v := dilithium.Verify(m, sg, &pk)
+		o := dilithium.Open(sm, &pk)
+		line := fmt.Sprintf("dl.open %s %s", hx(sm), hx(pk[:]))
+		g.check(v, "honest-accepted", fmt.Sprintf("honest signature on a %d-byte message rejected by Verify", len(m)), line)
+		g.check(v == (o != nil), "open-iff-verify", fmt.Sprintf("Verify accepts a signature on a %d-byte message and Open returns nothing for the same bytes (or the reverse)", len(m)), line)
+		g.check(o == nil || string(o) == string(m), "open-returns-message", fmt.Sprintf("Open returns something other than the %d-byte message", len(m)), line)
+		if len(m) < 100 {
+			g.op("%s", line)
+		}
+		// sealed by the library itself
+		if sm2, err := z.Seal(m); err == nil {
+			o2 := dilithium.Open(sm2, &pk)
+			g.check(o2 != nil && string(o2) == string(m), "open-iff-verify", fmt.Sprintf("Open(Seal(m)) returns nothing / another message for a %d-byte message", len(m)), fmt.Sprintf("dl.open %s %s", hx(sm2), hx(pk[:])))
+		}
+	}
 	hoff := 32 + 7*640
 	// ---- hint-section edits that isolate one decoder check ----
 	g.note("hint section edits")
